@@ -13,10 +13,13 @@
 (*   taint  <<key, seqno>>: a drop_range installed at seqno covered key    *)
 (*   haz    keys hit by a listed known finding (KnownFindings.tla)         *)
 (*   fx     compaction filter effects [k, s, c, t, v]                      *)
+(*   flat   drop_range marks that a reopen has made independent of the     *)
+(*          snapshot (only the newest version survives a reopen)           *)
 (***************************************************************************)
 EXTENDS LsmCore
 
-AInit == [log |-> {}, act |-> {}, sld |-> {}, clears |-> {}, taint |-> {}, haz |-> {}, fx |-> {}]
+AInit == [log |-> {}, act |-> {}, sld |-> {}, clears |-> {}, taint |-> {}, haz |-> {}, fx |-> {},
+          flat |-> {}]
 
 \* a compaction filter verdict applied by a compaction installed with seqno c rewrites
 \* record (k, s) for snapshots taken afterwards: fx holds [k, s, c, t, v], t = "D" destroyed
@@ -48,7 +51,7 @@ OracleScan(a, S, b) == ScanOf(LiveAt(a, S), S, b)
 DefinedL(a, L, k, S) ==
     /\ k \notin a.haz
     /\ \A p \in a.taint :
-        p[1] = k /\ p[2] < S => \E r \in L : r.k = k /\ r.s > p[2]
+        p[1] = k /\ (p[2] < S \/ p \in a.flat) => \E r \in L : r.k = k /\ r.s > p[2]
 Defined(a, k, S) == DefinedL(a, LiveAt(a, S), k, S)
 
 Durable(a) == a.log \ (a.act \cup a.sld)
@@ -61,7 +64,12 @@ AFilter(a, fxs) == [a EXCEPT !.fx = @ \cup fxs]
 AWrite(a, es)  == [a EXCEPT !.log = @ \cup es, !.act = @ \cup es]
 ARotate(a)     == [a EXCEPT !.sld = @ \cup a.act, !.act = {}]
 AFlush(a)      == [a EXCEPT !.sld = {}]
-AReopen(a)     == [a EXCEPT !.log = Durable(a), !.act = {}, !.sld = {}]
+\* drop (close) + open: unflushed records are gone; only the newest version survives, so what
+\* clear, drop_range and filter verdicts did holds for every snapshot from now on
+AReopen(a)     ==
+    LET kept == {q \in Durable(a) : \A c \in a.clears : q.s > c}
+        eff  == {e \in {EffRec(a, r, Top) : r \in kept} : e.t # "D"}
+    IN [a EXCEPT !.log = eff, !.act = {}, !.sld = {}, !.clears = {}, !.fx = {}, !.flat = a.taint]
 \* clear installed with seqno c
 AClear(a, c)   == [a EXCEPT !.clears = @ \cup {c}, !.act = {}, !.sld = {}]
 \* drop_range over the key set ks installed with seqno d
